@@ -99,6 +99,9 @@ pub struct Case {
     /// during the run (two chains in one thread, the other configured last)
     #[serde(default)]
     pub decoy: bool,
+    /// validators have plain, mixed-case names (three of them case variants of one name)
+    #[serde(default)]
+    pub plain_validators: bool,
     pub ops: Vec<SOp>,
 }
 
@@ -954,7 +957,22 @@ pub fn build(case: &Case) -> Run {
     // two extra accounts usable as withdraw addresses
     addrs.push(api.addr_make("extra0").to_string());
     addrs.push(api.addr_make("extra1").to_string());
-    let validators: Vec<String> = (0..nv).map(|i| api.addr_make(&format!("validator{}", i)).to_string()).collect();
+    // operator addresses are opaque strings to the staking module: bech32 ones, or plain names that differ
+    // from each other only in the case of their letters
+    let validators: Vec<String> = (0..nv)
+        .map(|i| {
+            if case.plain_validators {
+                match i {
+                    0 => "ValoperA".to_string(),
+                    1 => "valopera".to_string(),
+                    2 => "VALOPERA".to_string(),
+                    _ => format!("Operator{}", i),
+                }
+            } else {
+                api.addr_make(&format!("validator{}", i)).to_string()
+            }
+        })
+        .collect();
     let mut names = Names { prefix: prefix.to_string(), ..Default::default() };
     names.accounts = addrs.clone();
     names.ghosts = (0..4).map(|i| api.addr_make(&format!("ghost{}", i)).to_string()).collect();
@@ -1272,6 +1290,7 @@ impl Engine for StakeSim {
             init_balance: *rng.pick(&[10u64, 1000, 100_000, 1_000_000_000]),
             bonded: if rng.chance(1, 3) { 1 + rng.below(2) as u8 } else { 0 },
             decoy: rng.chance(1, 4),
+            plain_validators: rng.chance(1, 5),
             ops,
         }
     }
